@@ -102,6 +102,43 @@ class Ctx:
         self.notes.append(s)
 
 
+class ImplHang(BaseException):
+    """the implementation did not finish a single parse within the per-parse time limit
+    (BaseException: parse() wraps every Exception, a hang must not be turned into a parse error)"""
+
+
+def install_watchdog(limit=float(os.environ.get("VERIF_PARSE_LIMIT", "20"))):
+    """every CxxParser.parse() of the code under test runs under a SIGALRM time limit, so that
+    a change that makes the parser loop shows up as a finding instead of hanging the check"""
+    import signal
+    sys.path.insert(0, common.REPO)
+    try:
+        from cxxheaderparser.parser import CxxParser
+    except Exception:  # noqa: the extractor reports import problems
+        return
+    if getattr(CxxParser.parse, "_verif_wrapped", False):
+        return
+    orig = CxxParser.parse
+
+    def on_alarm(signum, frame):
+        raise ImplHang("parse() still running after %.0f s" % limit)
+
+    def parse(self):
+        import threading
+        if threading.current_thread() is not threading.main_thread():
+            return orig(self)
+        old = signal.signal(signal.SIGALRM, on_alarm)
+        signal.setitimer(signal.ITIMER_REAL, limit)
+        try:
+            return orig(self)
+        finally:
+            signal.setitimer(signal.ITIMER_REAL, 0)
+            signal.signal(signal.SIGALRM, old)
+
+    parse._verif_wrapped = True
+    CxxParser.parse = parse
+
+
 def run_extract():
     env = dict(os.environ)
     env["PYTHONPATH"] = common.REPO
@@ -232,6 +269,7 @@ def main(argv):
     if os.environ.get("VERIF_TIER") in ("quick", "thorough") and tier not in ("quick", "thorough"):
         tier = os.environ["VERIF_TIER"]
     t0 = time.time()
+    install_watchdog()
     try:
         mod = importlib.import_module("props." + pid.lower())
     except ImportError as e:
@@ -287,6 +325,19 @@ def main(argv):
     except subprocess.TimeoutExpired as e:
         print("machinery timeout: %s" % e)
         return 2
+    except ImplHang as e:
+        tb = traceback.extract_tb(e.__traceback__)
+        repo_frames = [f for f in tb if os.path.abspath(f.filename).startswith(os.path.abspath(common.REPO) + os.sep)]
+        where = ("%s:%d (%s)" % (os.path.relpath(repo_frames[-1].filename, common.REPO), repo_frames[-1].lineno, repo_frames[-1].name)) if repo_frames else "?"
+        inp = None
+        for fr, _ in traceback.walk_tb(e.__traceback__):
+            if fr.f_code.co_name == "parse" and "self" in fr.f_locals and hasattr(fr.f_locals["self"], "lex"):
+                try:
+                    inp = fr.f_locals["self"].lex._lex.lex.lexdata
+                except Exception:  # noqa
+                    pass
+        ctx.violations.append({"oracle": "hang", "input": inp, "diff": "the implementation did not finish parsing this input (%s); it was executing %s" % (e, where)})
+        ctx.oracles.append({"name": "hang", "cases": 1, "failures": 1, "note": "plugin aborted"})
     except Exception as e:
         # an exception that comes out of the code under test (a frame inside /repo) is a
         # finding about the implementation, not a failure of the machinery
@@ -317,6 +368,16 @@ def main(argv):
             matched.setdefault(fid, v)
         else:
             new_violations.append(v)
+
+    # deterministic replay of every listed open finding's witness (plugin hook)
+    wit = getattr(mod, "WITNESSES", {})
+    for f in open_findings:
+        if f["id"] not in matched and f["id"] in wit:
+            try:
+                if wit[f["id"]]():
+                    matched[f["id"]] = {"witness": f.get("witness")}
+            except Exception as e:  # noqa
+                matched[f["id"]] = {"witness": f.get("witness"), "raised": repr(e)}
 
     wall = time.time() - t0
     obligations = list(mod.THEOREMS)
